@@ -235,6 +235,111 @@ def run_one(O, td, sd, extra_args=()):
     return ev
 
 
+# the command lines of docs/examples.md, in document order; a pipeline's later commands read the earlier ones' output
+DOC_PIPELINES = [
+    ["uio66.cif uio66-oh.cif --find uio66-linker.cml --replace uio66-linker-oh.cml"],
+    ["uio66.cif uio66-defective-10.cif -f uio66-linker.cml -r uio66-linker-defective.cml --replicate 2 2 2 --replace-fraction=0.10"],
+    ["uio66.cif uio66-defective-90.cif -f uio66-linker.cml -r uio66-linker-defective.cml --replicate 2 2 2 --replace-fraction=0.90"],
+    ["uio66.cif uio66-param1.lmpdat --find uio66-metal-center.cml --replace uio66-metal-center-parameterized.lmpdat",
+     "uio66-param1.lmpdat uio66-parameterized.lmpdat --find uio66-linker-Zr.cml --replace uio66-linker-Zr-parameterized.lmpdat"],
+    ["uio66.cif uio66-param1.lmpdat --find uio66-metal-center-parameterized.lmpdat --replace uio66-metal-center-parameterized.lmpdat",
+     "uio66-param1.lmpdat uio66-parameterized.lmpdat --find uio66-linker-Zr-parameterized.lmpdat --replace uio66-linker-Zr-parameterized.lmpdat"],
+    ["uio66.cif uio66-zrhf1.cif --replicate 2 2 2 --find uio66-metal-center-simple.cml --replace uio66-metal-center-hf1.cml --replace-fraction=0.4",
+     "uio66-zrhf1.cif uio66-50perc-zr-hf-by-cluster.cif --find uio66-metal-center-simple.cml --replace uio66-metal-center-hf2.cml"],
+]
+
+
+def parse_doc_command(line):
+    """documented command line -> (option record O in the vocabulary of Cli.tla, file names by role)"""
+    tok = line.split()
+    files = {"input": tok[0], "output": tok[1]}
+    O = {"input": tok[0].rsplit(".", 1)[1], "output": tok[1].rsplit(".", 1)[1], "find": "no", "replace": "no", "atol": 500, "fn": 1, "fd": 1,
+         "hints": [-1, -1, -1], "replicate": [0, 0, 0], "mic2": 0, "pp": "no", "uc": "no", "charges": "no", "celldiag": [0, 0, 0]}
+    i = 2
+    while i < len(tok):
+        t = tok[i]
+        if t in ("-f", "--find"):
+            O["find"], files["find"] = "yes", tok[i + 1]
+            i += 2
+        elif t in ("-r", "--replace"):
+            O["replace"], files["replace"] = "yes", tok[i + 1]
+            i += 2
+        elif t == "--replicate":
+            O["replicate"] = [int(x) for x in tok[i + 1:i + 4]]
+            i += 4
+        elif t.startswith("--replace-fraction="):
+            fr = Fraction(float(t.split("=", 1)[1])).limit_denominator(24)
+            O["fn"], O["fd"] = fr.numerator, fr.denominator
+            i += 1
+        else:
+            raise MachineryError("documented command line uses an option the harness does not know: %s" % t)
+    return O, files
+
+
+def run_doc_pipeline(cmds, td, sd):
+    """the command lines of one documented example, run in a scratch copy of docs/examples; one event per command"""
+    import shutil
+    import mofun
+    from click.testing import CliRunner
+    import mofun.cli.mofun_cli as cm
+    from mofun import Atoms
+    src = os.path.join(os.path.dirname(os.path.dirname(os.path.abspath(mofun.__file__))), "docs", "examples")
+    wd = tempfile.mkdtemp(dir=td)
+    for f in os.listdir(src):
+        shutil.copy(os.path.join(src, f), wd)
+    out = []
+    for line in cmds:
+        O, files = parse_doc_command(line)
+        paths = {k: os.path.join(wd, v) for k, v in files.items()}
+        paths["api_output"] = os.path.join(wd, "api-" + files["output"])
+        roles = {v: k for k, v in files.items()}
+        if files.get("find") == files.get("replace") and "find" in files:
+            roles[files["find"]] = "find+replace"
+        ev = {"O": O, "calls": [], "exit": 0, "exc": "none", "same": "yes", "charges": "ok", "findout": "yes", "doc": line}
+        try:
+            with contextlib.redirect_stderr(io.StringIO()), contextlib.redirect_stdout(io.StringIO()):
+                cell = np.array(Atoms.load(paths["input"]).cell, dtype=float)
+            if np.allclose(cell, np.diag(np.diag(cell)), atol=1e-9):
+                O["celldiag"] = [int(round(x * 1e4)) for x in np.diag(cell)]
+        except Exception as e:
+            ev["exc"], ev["exc_msg"] = "input-unreadable", str(e)[:150]
+            out.append(ev)
+            break
+        random.seed(sd)
+        np.random.seed(sd)
+        cwd = os.getcwd()
+        with Recorder(roles) as rec:
+            try:
+                os.chdir(wd)
+                with contextlib.redirect_stderr(io.StringIO()):
+                    r = CliRunner().invoke(cm.mofun_cli, line.split())
+            finally:
+                os.chdir(cwd)
+        # a file given both as search and as replacement pattern is loaded twice: first as "find", then as "replace"
+        seen = 0
+        for c in rec.calls:
+            if c["what"] == "find+replace":
+                c["what"] = "find" if seen == 0 else "replace"
+                seen += 1
+        ev["calls"] = rec.calls
+        ev["exit"] = int(r.exit_code)
+        if r.exception is not None and not isinstance(r.exception, SystemExit):
+            ev["exc"], ev["exc_msg"] = type(r.exception).__name__, str(r.exception)[:200]
+            out.append(ev)
+            break
+        try:
+            with contextlib.redirect_stderr(io.StringIO()), contextlib.redirect_stdout(io.StringIO()):
+                api_pipeline(O, paths, [], sd)
+            if not os.path.exists(paths["output"]) or open(paths["output"]).read() != open(paths["api_output"]).read():
+                ev["same"] = "no"
+        except Exception as e:
+            ev["same"] = "no"
+            ev["exc_msg"] = "api pipeline: %s: %s" % (type(e).__name__, str(e)[:150])
+        out.append(ev)
+    shutil.rmtree(wd, ignore_errors=True)
+    return out
+
+
 def cfg(maxopts, emit):
     return ("SPECIFICATION Spec\nCONSTANTS\n  MaxOpts = %d\n  Emit = %s\nINVARIANT %s\nCHECK_DEADLOCK FALSE\n"
             % (maxopts, "TRUE" if emit else "FALSE", "EmitInv" if emit else "ModelInv"))
@@ -246,9 +351,13 @@ def run(prop, tier, replay=None):
     maxopts = 2 if tier == "quick" else 4
     out.rule = ("option sets = every state of MC_Cli (3 input formats x 2 output formats x 3 modes x every subset of <= %d of the options "
                 "atol / fraction / hints / replicate / mic / charge file / pp / extract-uc with non-default values); quick: a seeded sample; "
-                "each run in-process through click and through the API with the same seeds; plus --framework-element runs" % maxopts)
+                "each run in-process through click and through the API with the same seeds; plus --framework-element runs; plus the nine documented command lines of docs/examples.md on the documented files (pipelines of two commands feed the first output to the second)" % maxopts)
+    doc_replay = None
     if replay:
-        opts = [json.load(open(replay))["case"]["O"]]
+        rp = json.load(open(replay))["case"]
+        opts = [rp["O"]]
+        if rp.get("doc_pipeline"):
+            opts, doc_replay = [], rp["doc_pipeline"]
     else:
         res = run_tlc("MC_Cli", cfg(maxopts, False), workers=8, timeout=1200, tag="mccli")
         if res.error:
@@ -268,11 +377,21 @@ def run(prop, tier, replay=None):
     with tempfile.TemporaryDirectory(dir=BUILD) as td:
         for O in opts:
             events.append((O, [], run_one(O, td, sd)))
+        if doc_replay:
+            for cmds in doc_replay:
+                for ev in run_doc_pipeline(cmds, td, sd):
+                    events.append((ev["O"], ["documented-example"], ev))
         if not replay:
             for O in opts[:2]:
                 events.append((O, ["framework-element"], run_one(O, td, sd, extra_args=("--framework-element", "C"))))
+            ndoc = 0
+            for cmds in DOC_PIPELINES:
+                for ev in run_doc_pipeline(cmds, td, sd):
+                    events.append((ev["O"], ["documented-example"], ev))
+                    ndoc += 1
+            out.notes["documented_command_lines"] = ndoc
     out.evaluations = len(events)
-    items = [{k: v for k, v in ev.items() if k != "exc_msg"} for _, _, ev in events]
+    items = [{k: v for k, v in ev.items() if k not in ("exc_msg", "doc")} for _, _, ev in events]
     verdicts = shard_validate("Trace_Cli", TRACE_CFG, items, shards=6, workers=1, tag="val-C20")
     out.traces = len(items)
     by = {}
@@ -283,9 +402,9 @@ def run(prop, tier, replay=None):
             continue
         by[vd] = by.get(vd, 0) + 1
         out.violation({"op": "cli", "clause": vd, "flags": fl + ["out-" + O["output"]], "exc": ev["exc"], "exc_msg": ev.get("exc_msg", "")},
-                      {"O": O, "observed": ev})
+                      {"O": O, "observed": ev, "doc_pipeline": [c for c in DOC_PIPELINES if ev.get("doc") in c]})
     out.notes["rejected_by_clause"] = by
     out.assumptions = ["harness/cliops.py: fixture files, recording wrappers (rebinding of Atoms.load / replicate / save and the names bound in "
                        "mofun.cli.mofun_cli), the API pipeline the output is compared with",
-                       "one fixture crystal (7 atoms, two occurrences, one across a boundary); generated structures only, not the docs examples"]
+                       "one generated fixture crystal (7 atoms, two occurrences, one across a boundary) for the enumerated option sets; the nine command lines of docs/examples.md run on the files of docs/examples (call trace + output = API pipeline; what the replacement does to uio66 is the subject of C03-C08)"]
     return out.finish()
